@@ -455,8 +455,9 @@ fn run_sequence<T: Elem>(ops: &[Op<T>]) -> CaseResult {
 
 fn op_strategy<T: Elem + 'static>(val: BoxedStrategy<T>) -> BoxedStrategy<Op<T>> {
     // positions inside, just outside and absurdly far outside the stack
-    let pos = prop_oneof![16 => 0usize..6, 4 => 0usize..40, 1 => prop::sample::select(vec![usize::MAX, usize::MAX - 1, usize::MAX / 2 + 1, 1usize << 32])].boxed();
-    let vs = prop::collection::vec(val.clone(), 0..4);
+    let pos = prop_oneof![16 => 0usize..6, 4 => 0usize..40, 2 => 30usize..100, 1 => prop::sample::select(vec![usize::MAX, usize::MAX - 1, usize::MAX / 2 + 1, 1usize << 32])].boxed();
+    // mostly short blocks; one in four is a bulk block (longer than a small stack, past 16 / 32 elements)
+    let vs = prop_oneof![3 => prop::collection::vec(val.clone(), 0..4), 1 => prop::collection::vec(val.clone(), 4..48)];
     prop_oneof![
         6 => val.clone().prop_map(Push),
         3 => Just(Pop),
